@@ -22,6 +22,9 @@ func ConstraintFragments() map[string]*Fragment {
 			leaf("v", "mand", K{"id", "m1"}, "v"),
 			leaf("m", "mand", K{"id", "m1"}, "m"),
 		}},
+		{Name: "ok-guard", Leaves: []Leaf{leaf("g", "refs", "guard"), leaf("rg", "sys", "hostname")}},
+		{Name: "p-mtu5", Leaves: []Leaf{leaf("500", "sys", "mtu")}},  // invalid only if some live intent holds refs/guard
+		{Name: "p-mtu9", Leaves: []Leaf{leaf("9000", "sys", "mtu")}},
 		{Name: "iv-length", Leaves: []Leaf{leaf("abcdefghijklmnopq", "sys", "hostname")}},
 		{Name: "iv-pattern", Leaves: []Leaf{leaf("Upper", "sys", "hostname")}},
 		{Name: "iv-leafref", Leaves: []Leaf{leaf("nonexist", "refs", "uplink")}},
@@ -41,10 +44,11 @@ func ConstraintFragments() map[string]*Fragment {
 
 var InvalidFragOrder = []string{"iv-length", "iv-pattern", "iv-leafref", "iv-must", "iv-mandatory", "iv-max-elements", "iv-ll-range", "iv-range", "iv-enum"}
 
-// c03Frags: the exploration alphabet avoids fragments that define sys/mtu, refs/* or mand/*, so that the
-// validity of every iv-* / ok-* fragment does not depend on the state.
+// c03Frags: the exploration alphabet avoids fragments that define sys/mtu, refs/uplink, refs/ll or mand/*, so that the
+// validity of every iv-* / ok-* fragment does not depend on the state (p-mtu5 deliberately does: it is invalid
+// exactly when another owner's ok-guard is live).
 func c03Frags() (map[string]*Fragment, []string) {
-	return mergeFrags(CoreFragments(), MultiKeyFragments(), ConstraintFragments()), []string{"fa", "fb", "fc", "fd", "mk4"}
+	return mergeFrags(CoreFragments(), MultiKeyFragments(), ConstraintFragments()), []string{"fa", "fb", "fc", "fd", "mk4", "ok-guard"}
 }
 
 // C03Probes is the request menu.
@@ -64,6 +68,10 @@ func C03Probes(m *Model) []Op {
 	both(single(IntentSpec{Owner: "A", Prio: 10, Delete: true}))
 	both(single(IntentSpec{Owner: "B", Prio: 20, Delete: true}))
 	both(Op{Intents: []IntentSpec{{Owner: "A", Prio: 10, Frag: "fc"}, {Owner: "C", Prio: 30, Frag: "fd"}}})
+	// requests whose validity depends on another owner's intent (the error is attributed to data of that intent)
+	both(single(IntentSpec{Owner: "A", Prio: 10, Frag: "p-mtu5"}))
+	both(single(IntentSpec{Owner: "C", Prio: 30, Frag: "p-mtu5"}))
+	both(single(IntentSpec{Owner: "A", Prio: 10, Frag: "p-mtu9"}))
 	// invalid in exactly one constraint class, by each of two owners (ruling and shadowed positions)
 	for _, f := range InvalidFragOrder {
 		both(single(IntentSpec{Owner: "A", Prio: 10, Frag: f}))
